@@ -1,4 +1,4 @@
-From Tetl Require Import Lib.Base Lib.Arr C06a.Model C06a.Spec C06a.Instances C06a.Instances2 C06a.IterModel C06a.Spec2.
+From Tetl Require Import Lib.Base Lib.Arr C06a.Model C06a.ModelOut C06a.Spec C06a.Instances C06a.Instances2 C06a.IterModel C06a.Spec2.
 Require Extraction.
 Require Import ExtrOcamlBasic.
 Extraction Language OCaml.
@@ -13,4 +13,6 @@ Extraction "C06a_model.ml" wire_anchor
   key pred_of cmp_of eqv_of fun1_of fun2_of
   cmp_of2 move_fwd move_bwd copy_within_spec copy_backward_within_spec
   advance_m next_m prev_m distance_m rev_eq rev_ne rev_lt rev_le rev_gt rev_ge rev_plus rev_minus rev_diff
-  rev_deref rev_index rev_incr rev_decr rpos.
+  rev_deref rev_index rev_incr rev_decr rpos
+  copy_out copy_if_out remove_copy_if_out transform1_out transform2_out copy_n_out fill_n_out generate_n_out
+  reverse_copy_out rotate_copy_out unique_copy_out partition_copy_out copy_backward_out emit_spec emit_backward_spec.
